@@ -284,7 +284,7 @@ def structural(ck):
                                         "checked": "c18_body_case (Handoff/Snapshot.v) on this sequence: pickle and write_status "
                                                    "both after the last cancel_study/execute_ready_steps/other call on the graph; "
                                                    "modulo graph-neutral calls the body is [cancel; execute; pickle; status]"}
-        bad, errs = common.coq_failing("C18_ast_body", AST_HEADER, "list maction", "c18_body_case",
+        bad, errs = common.coq_failing("C18_ast_body_p%d" % os.getpid(), AST_HEADER, "list maction", "c18_body_case",
                                        [common.g_list(acts)])
         if errs:
             ck.proof_failures.append(("coqc failed on the monitor-loop call sequence", errs[0][1]))
@@ -307,7 +307,7 @@ def structural(ck):
                                                 "no call on (or passing) the study object between store_study and the staging"}
         if not paths:
             raise NotTranslatable("no path of run_study stores or stages a study")
-        bad, errs = common.coq_failing("C18_ast_handoff", AST_HEADER, "list haction", "c18_handoff_case",
+        bad, errs = common.coq_failing("C18_ast_handoff_p%d" % os.getpid(), AST_HEADER, "list haction", "c18_handoff_case",
                                        [common.g_list(p) for p in paths])
         if errs:
             ck.proof_failures.append(("coqc failed on the run_study call sequences", errs[0][1]))
@@ -374,6 +374,11 @@ def gen_handoff_case(rng, c08):
     case["cfg"] = {"throttle": rng.choice([0, 1, 2, 3, 7]), "attempts": rng.choice([1, 2, 3, 4]),
                    "dry": rng.random() < 0.35, "use_tmp": rng.random() < 0.4, "hash_ws": rng.random() < 0.5}
     case["batch"] = gen_batch(rng)
+    if case["params"] and stream != "exotic" and rng.random() < 0.3:
+        case["pgen_kind"] = rng.choice(["sub", "cls", "fn"])
+        if case["pgen_kind"] == "cls":      # instances of a class of the generator file; the case lists their str()
+            p = case["params"][0]
+            p["values"] = [v if isinstance(v, (int, str)) and not isinstance(v, bool) else str(v) for v in p["values"]]
     return case
 
 
@@ -393,15 +398,53 @@ def spec_yaml(case, c08, with_params):
 
 
 def pgen_text(case):
-    lines = ["from maestrowf.datastructures.core import ParameterGenerator", "",
-             "def get_custom_generator(env, **kwargs):", "    p = ParameterGenerator()"]
-    for p in case["params"]:
+    """The custom generator file.  `pgen_kind` (None | 'sub' | 'cls' | 'fn'): the file additionally
+    defines -- and leaves reachable from the study -- a ParameterGenerator subclass / a value class
+    (values are instances; the case lists their str()) / a helper function and a lambda."""
+    kind = case.get("pgen_kind")
+    lines = ["from maestrowf.datastructures.core import ParameterGenerator", "", "",
+             "class Level(object):", "    def __init__(self, v):", "        self.v = v", "",
+             "    def __str__(self):", "        return str(self.v)", "", "",
+             "def scale(x):", "    return x", "", "",
+             "class MyGen(ParameterGenerator):", "    def __init__(self):",
+             "        super(MyGen, self).__init__()", "        self.note = 'own subclass'", "", "",
+             "def get_custom_generator(env, **kwargs):",
+             "    p = %s()" % ("MyGen" if kind == "sub" else "ParameterGenerator")]
+    for n, p in enumerate(case["params"]):
+        vals = repr(list(p["values"]))
+        if kind == "cls" and n == 0:
+            vals = "[%s]" % ", ".join("Level(%r)" % v for v in p["values"])
+        elif kind == "fn" and n == 0:
+            vals = "[%s]" % ", ".join("scale(%r)" % v for v in p["values"])
         if p.get("name"):
-            lines.append("    p.add_parameter(%r, %r, %r, %r)" % (p["key"], list(p["values"]), p.get("label"), p["name"]))
+            lines.append("    p.add_parameter(%r, %s, %r, %r)" % (p["key"], vals, p.get("label"), p["name"]))
         else:
-            lines.append("    p.add_parameter(%r, %r, %r)" % (p["key"], list(p["values"]), p.get("label")))
+            lines.append("    p.add_parameter(%r, %s, %r)" % (p["key"], vals, p.get("label")))
+    if kind == "fn":
+        lines += ["    p.helper = scale", "    p.post = lambda x: scale(x)"]
     lines.append("    return p")
     return "\n".join(lines) + "\n"
+
+
+def build_study_pgen(case, root, pgen, c08):
+    """c08.build_study with the parameters produced by the REAL maestro.load_parameter_generator"""
+    from maestrowf.datastructures.core import Study, StudyStep, StudyEnvironment
+    from maestrowf.datastructures.environment import Variable
+    from maestrowf.maestro import load_parameter_generator
+    env = StudyEnvironment()
+    env.add(Variable("OUTPUT_PATH", root))
+    env.add(Variable("SPECROOT", os.path.dirname(root)))
+    params = load_parameter_generator(pgen, env, {"OUTPUT_PATH": root})
+    steps = []
+    for st in case["steps"]:
+        s = StudyStep()
+        s.name = st["name"]
+        s.description = st["description"]
+        for k, v in st["run"].items():
+            s.run[k] = v if not isinstance(v, list) else list(v)
+        steps.append(s)
+    return Study(STUDY_NAME, {"name": STUDY_NAME, "description": "generated"},
+                 studyenv=env, parameters=params, steps=steps, out_path=root)
 
 
 def yaml_params_ok(case):
@@ -432,7 +475,10 @@ def sub_store(inp, outp):
         r = {"stored": False}
         os.makedirs(os.path.dirname(root), exist_ok=True)
         try:
-            study = c08.build_study(case, root)
+            if case.get("pgen_kind"):
+                study = build_study_pgen(case, root, job["pgen"], c08)
+            else:
+                study = c08.build_study(case, root)
         except Exception as e:
             r.update({"ok": False, "err": 1, "exc": type(e).__name__, "msg": str(e)[:200]})
             res.append(r)
@@ -552,6 +598,7 @@ def diff_obs(a, b, root_a, root_b):
 
 def handoff_part(ck, cases, c08, tag="C18_handoff"):
     from harness import e2e
+    tag = e2e.utag(tag)
     work = os.path.join(common.WORK, tag)
     shutil.rmtree(work, ignore_errors=True)
     os.makedirs(work)
@@ -561,7 +608,7 @@ def handoff_part(ck, cases, c08, tag="C18_handoff"):
         os.makedirs(d)
         job = {"case": case, "root": os.path.join(d, "out"), "dir": d, "spec": None, "pgen": None}
         try:
-            yp = yaml_params_ok(case)
+            yp = yaml_params_ok(case) and not case.get("pgen_kind")
             with open(os.path.join(d, "spec.yaml"), "w") as f:
                 f.write(spec_yaml(case, c08, with_params=yp and bool(case["params"])))
             job["spec"] = os.path.join(d, "spec.yaml")
@@ -637,7 +684,8 @@ def handoff_part(ck, cases, c08, tag="C18_handoff"):
     for job, b in zip(jobs, e2e.pmap(run_b, jobs)):
         job["B"] = b
     ncli = max(4, len(jobs) // 3)
-    cli_jobs = [j for j in jobs if j["A"].get("yaml_ok")][:ncli]
+    cli_jobs = [j for j in jobs if j["A"].get("yaml_ok") and j["case"].get("pgen_kind")] + \
+               [j for j in jobs if j["A"].get("yaml_ok") and not j["case"].get("pgen_kind")][:ncli]
     for job, c in zip(cli_jobs, e2e.pmap(run_cli, cli_jobs)):
         job["C"] = c
 
@@ -646,7 +694,7 @@ def handoff_part(ck, cases, c08, tag="C18_handoff"):
     lits, lit_jobs = [], []
     for job in jobs:
         case, a, b = job["case"], job["A"], job["B"]
-        slim = {k: case[k] for k in ("rlimit", "params", "steps", "cfg", "batch", "stream")}
+        slim = {k: case[k] for k in ("rlimit", "params", "steps", "cfg", "batch", "stream", "pgen_kind") if k in case}
         dist["stream:" + case["stream"]] += 1
         dist["batch:" + case["batch"]["type"]] += 1
         for p in case["params"]:
@@ -657,6 +705,13 @@ def handoff_part(ck, cases, c08, tag="C18_handoff"):
         ck.count("handoff:" + json.dumps(slim, sort_keys=True, default=str), nontrivial=nontriv)
         if a.get("err") == 9:
             ck.mismatch("hand-off: process A did not complete", slim, a.get("msg", ""))
+            continue
+        if case.get("pgen_kind"):
+            dist["pgen_file_defines:" + case["pgen_kind"]] += 1
+        if "ickl" in str(a.get("exc", "")) or "pickle" in str(a.get("msg", "")).lower():
+            ck.violation("hand-off: the study cannot be written out (%s in %s): %s" % (
+                a.get("exc"), "store_study/store_batch" if a.get("err") == 5 else "Conductor.initialize (store_metadata)",
+                a.get("msg")), slim)
             continue
         if not a.get("stored"):
             dist["A:rejected-before-store(err %s)" % a.get("err")] += 1
@@ -746,6 +801,7 @@ def snapshot_histories(ck, n, rng, tag="C18_snap"):
     from harness import e2e
     H._setup()
     from maestrowf.datastructures.core.executiongraph import ExecutionGraph
+    tag = e2e.utag(tag)
     work = os.path.join(common.WORK, tag)
     shutil.rmtree(work, ignore_errors=True)
     os.makedirs(work)
@@ -837,6 +893,7 @@ def snapshot_histories(ck, n, rng, tag="C18_snap"):
 def snapshot_e2e(ck, n, rng, tag="C18_e2e"):
     """real `maestro run -fg` runs: <name>.pkl and status.csv as monitor_study left them at every poll"""
     from harness import e2e
+    tag = e2e.utag(tag)
     work = os.path.join(common.WORK, tag + "_runs")      # (WORK/tag itself is the Coq scratch of e2e.evaluate)
     shutil.rmtree(work, ignore_errors=True)
     items = [{"case": e2e.gen_local_study(rng, shape=rng.choice(["chain", "diamond", "layered", "funnel", "random"])),
@@ -942,7 +999,11 @@ def run(ck):
             snapshot_histories(ck2, 400, r2, tag="C18_search_s")
         return ck2.concrete[0] if ck2.concrete else None
 
-    return ck.finish(search=search)
+    from harness import e2e
+    e2e.sweep()
+    rc = ck.finish(search=search)
+    e2e.sweep()
+    return rc
 
 
 def replay(ck, path):
